@@ -150,10 +150,14 @@ func ruleR07a(c *Check) {
 				return false
 			}
 			isClose := func(s ssa.CallInstruction) bool {
+				_, isCall := s.(*ssa.Call)
+				// the temp file behind an io.WriteCloser parameter of a staging helper
+				if cc := s.Common(); isCall && cc.IsInvoke() && cc.Method.Name() == "Close" && sameFile(cc.Value, tmp) {
+					return true
+				}
 				if engine.CalleeName(s) != "(*os.File).Close" {
 					return false
 				}
-				_, isCall := s.(*ssa.Call)
 				return isCall && sameFile(s.Common().Args[0], tmp)
 			}
 			copies, leaks1 := liftedSites(c, m, isCopy, 0)
